@@ -116,6 +116,7 @@ class State:
         self.call_pre = None  # Snapshot before a callee (for old() inside callee ensures)
         self.qdepth = 0      # >0 while translating the body of a quantifier / comprehension
         self.qids = set()    # z3 ids of the bound constants currently in scope
+        self.qguards = []    # range guards of those constants: obligations raised inside the scope are implications
 
     def snapshot(self):
         return Snapshot(self.env, self.heap)
